@@ -2,10 +2,14 @@
 //! dropping the owner): two handle clones add a signal each while the other is paused at a chosen
 //! point; afterwards every owner is dropped and we look at what is left behind.
 //! stdin: one case per line: `<sig1> <sig2> <n> <activity>*n`; stdout per case:
-//!   `ok1 ok2 write_fd_open wakes_after_drop stuck panicked`
+//!   `ok1 ok2 write_fd_open wakes_after_drop stuck panicked wakes_alive records_alive`
+//! wakes_alive / records_alive: with the owners still alive, ONE dispatch of sig1 is made and the
+//! wake-ups it performs and the records `pending()` yields for it are counted (C10: at most one
+//! record per delivery).  A line starting with `R` uses the WithRawSiginfo exfiltrator.
 use sh_harness::sched::{self, Activity};
 use signal_hook::iterator::backend::SignalDelivery;
-use signal_hook::iterator::exfiltrator::SignalOnly;
+use signal_hook::iterator::exfiltrator::raw::WithRawSiginfo;
+use signal_hook::iterator::exfiltrator::{Exfiltrator, SignalOnly};
 use signal_hook_registry::verif::{self, Directive, Event, Op};
 use std::io::{BufRead, Read, Write};
 use std::os::unix::io::{AsRawFd, FromRawFd};
@@ -22,13 +26,14 @@ fn after(e: &Event) {
 }
 static COUNT_HOOKS: verif::Hooks = verif::Hooks { before, after };
 
-fn run_case(v: &[i64]) -> String {
+fn run_case<E: Exfiltrator + Send + Sync + 'static>(v: &[i64], exf: E) -> String
+where E::Storage: Send + Sync {
     let (s1, s2) = (v[0] as i32, v[1] as i32);
     let n = v[2] as usize;
     let schedule: Vec<(usize, u8)> = v[3..3 + n].iter().map(|&a| (a as usize, 0u8)).collect();
     let (read, write) = UnixStream::pair().unwrap();
     let wfd = write.as_raw_fd();
-    let delivery = SignalDelivery::with_pipe(read, write, SignalOnly::default(), &[] as &[i32]).unwrap();
+    let delivery = SignalDelivery::with_pipe(read, write, exf, &[] as &[i32]).unwrap();
     let handle = delivery.handle();
     let (h1, h2) = (handle.clone(), handle.clone());
     let res = Arc::new([AtomicUsize::new(9), AtomicUsize::new(9)]);
@@ -40,6 +45,17 @@ fn run_case(v: &[i64]) -> String {
         Box::new(move || { let r = h2.add_signal(s2); r2[1].store(r.is_ok() as usize, Ordering::SeqCst); }),
     ];
     let out = sched::run(acts, &schedule, true, 20000);
+    let mut delivery = delivery;
+    let (mut wakes_alive, mut records_alive) = (0, 0);
+    if !out.stuck && !out.panicked.iter().any(|p| *p) {
+        verif::install(&COUNT_HOOKS);
+        let mut info: libc::siginfo_t = unsafe { std::mem::zeroed() };
+        let mut ctx = 0u64;
+        info.si_signo = s1;
+        unsafe { signal_hook_registry::verif_api::dispatch(s1, &mut info, &mut ctx as *mut u64 as *mut libc::c_void) };
+        wakes_alive = WAKES.swap(0, Ordering::SeqCst);
+        records_alive = delivery.pending().count();
+    }
     drop(handle);
     drop(delivery);
     // everything that owned the instance is gone now: its registrations must be gone, its pipe closed
@@ -51,14 +67,15 @@ fn run_case(v: &[i64]) -> String {
         unsafe { signal_hook_registry::verif_api::dispatch(s, &mut info, &mut ctx as *mut u64 as *mut libc::c_void) };
     }
     let open = unsafe { libc::fcntl(wfd, libc::F_GETFD) } != -1;
-    format!("{} {} {} {} {} {}", res[0].load(Ordering::SeqCst), res[1].load(Ordering::SeqCst), open as i32,
-            WAKES.load(Ordering::SeqCst), out.stuck as i32, out.panicked.iter().filter(|p| **p).count())
+    format!("{} {} {} {} {} {} {} {}", res[0].load(Ordering::SeqCst), res[1].load(Ordering::SeqCst), open as i32,
+            WAKES.load(Ordering::SeqCst), out.stuck as i32, out.panicked.iter().filter(|p| **p).count(), wakes_alive, records_alive)
 }
 
 fn main() {
     let stdin = std::io::stdin();
     for line in stdin.lock().lines() {
         let line = line.unwrap();
+        let raw = line.starts_with('R');
         let v: Vec<i64> = line.split_whitespace().filter_map(|t| t.parse().ok()).collect();
         if v.len() < 3 { println!(); continue; }
         unsafe {
@@ -68,7 +85,7 @@ fn main() {
             if pid == 0 {
                 libc::close(fds[0]);
                 libc::alarm(60);
-                let r = std::panic::catch_unwind(|| run_case(&v));
+                let r = std::panic::catch_unwind(|| if raw { run_case(&v, WithRawSiginfo::default()) } else { run_case(&v, SignalOnly::default()) });
                 let s = match r { Ok(s) => s, Err(_) => "!panic".to_string() };
                 let mut f = std::fs::File::from_raw_fd(fds[1]);
                 let _ = f.write_all(s.as_bytes());
